@@ -1,4 +1,4 @@
-\* thorough: extent map, inline, 9 ranges
+\* thorough: extent map, inline, 13 ranges
 SPECIFICATION Spec
 CONSTANTS
   NF = 1
@@ -8,7 +8,7 @@ CONSTANTS
   Readers = {r1, r2}
   r1 = r1
   r2 = r2
-  ReadSet <- RS_t
+  ReadSet <- RS_t2
   NReads = 1
   MaxEv = 1
   Async = FALSE
